@@ -576,6 +576,8 @@ def _extended_community_hex(value: str) -> ExtendedCommunity:
     if len(value) % 2:
         raise ValueError('invalid extended community {}'.format(value))
     raw = b''.join(bytes([int(value[_ : _ + 2], 16)]) for _ in range(2, len(value), 2))
+    if len(raw) != 8:
+        raise ValueError('invalid extended community {} (an extended community is 8 octets)'.format(value))
     return cast(ExtendedCommunity, ExtendedCommunity.unpack_attribute(raw, None))
 
 
